@@ -1228,6 +1228,7 @@ fn c08_reuse(ctx: &mut Ctx) {
 }
 
 pub fn c08(ctx: &mut Ctx) {
+
     c08_bin_lattice(ctx);
     c08_reuse(ctx);
     // per-record routine on synthetic tables
